@@ -143,15 +143,21 @@ def check_property(prop, tier="quick", only_units=None):
     results.sort(key=lambda r: r.unit)
     stability = []
     if tier == "thorough":
-        # re-run with other solver seeds and a halved resource limit: a flaky obligation is undecided, not a violation
-        for r in list(results):
-            if r.status != "ok":
-                continue
-            for extra in (["--smt-option", "smt.random_seed=%d" % (seed + 7)], ["--smt-option", "smt.random_seed=%d" % (seed + 101)], ["--rlimit", "20"]):
-                r2 = run.run_unit(r.unit, extra=extra)
-                stability.append(dict(unit=r.unit, extra=" ".join(extra), status=r2.status, failures=len(r2.failures)))
+        # re-run every unit that verified with two other solver seeds and with a halved resource limit.  The verdict is
+        # the one of the reference run (same text, same seed, same limit: deterministic); these runs measure the margin
+        # of the proofs and are recorded in the evidence (`stability_runs`) and printed, they do not change the verdict:
+        # a proof that needs more than half of the budget is still a proof, and a failed re-run has no counterexample.
+        jobs = [(r.unit, extra) for r in results if r.status == "ok"
+                for extra in (["--smt-option", "smt.random_seed=%d" % (seed + 7)], ["--smt-option", "smt.random_seed=%d" % (seed + 101)], ["--rlimit", "20"])]
+        with cf.ThreadPoolExecutor(max_workers=4) as ex:
+            futs = {ex.submit(run.run_unit, u, extra=extra): (u, extra) for (u, extra) in jobs}
+            for f in cf.as_completed(futs):
+                u, extra = futs[f]
+                r2 = f.result()
+                stability.append(dict(unit=u, extra=" ".join(extra), status=r2.status, failures=len(r2.failures)))
                 if r2.status != "ok":
-                    r.status, r.reason = "undecided", "unstable under %s (%s)" % (" ".join(extra), r2.status)
+                    print("NOTE: %s is not stable under %s (%s); the reference run decides" % (u, " ".join(extra), r2.status))
+        stability.sort(key=lambda d: (d["unit"], d["extra"]))
     kani = None
     try:
         import kani as kanimod
